@@ -11,6 +11,12 @@ import (
 	vmcommon "github.com/ElrondNetwork/elrond-vm-common"
 )
 
+const c02SigF4c = "F4c-create-overwrites-existing-entry"
+
+func c02PreBalPost(w *hWorld, cs *callSpec, suf string) *big.Int {
+	return c02PreBal(w.shards[cs.Shard].accounts, cs.Caller, suf)
+}
+
 func c02PreBal(pre map[string]*hAccount, addr []byte, suf string) *big.Int {
 	a, ok := pre[string(addr)]
 	if !ok {
@@ -83,10 +89,24 @@ func monC02(c *ctx, w *hWorld, pre *worldSnap, sr *stepResult, hist []string) {
 		}
 		k := tkKey(a[0], counter+1)
 		had := c02PreBal(sr.Res.Pre, cs.Caller, k)
-		if had.Sign() != 0 {
-			// the caller already holds a copy under counter+1 (another creator of the same token exists:
-			// outside the single-creator discipline): the entry is replaced, recorded, not judged
-			c.count("c02/create-replaces-foreign-copy(two creators)")
+		if raw := tkRaw(sr.Res.Pre, cs.Caller, k); len(raw) > 0 {
+			old := tkEntry(sr.Res.Pre, cs.Caller, k)
+			if old != nil && old.TokenMetaData != nil && old.TokenMetaData.Nonce == counter+1 {
+				// a copy of the SAME token and nonce (another creator of the token exists: outside the
+				// single-creator discipline): the entry is replaced; recorded, not judged
+				c.count("c02/create-replaces-foreign-copy(two creators)")
+			} else {
+				// F4c: the cell token ‖ (counter+1) belongs to ANOTHER token identifier (fungible / no metadata / other
+				// metadata nonce / flag-only entry): create overwrites it without looking
+				what := "an undecodable entry"
+				if old != nil {
+					what = fmt.Sprintf("an entry of type %d, value %v, properties %x, metadata %v", old.Type, old.Value, old.Properties, old.TokenMetaData != nil)
+				}
+				c.fail("monitor", c02SigF4c,
+					fmt.Sprintf("ESDTNFTCreate(%q, quantity %s) by %x issued nonce %d and overwrote the cell %x that held %s: %s units destroyed, the cell now holds %s", a[0], amt(1), cs.Caller, counter+1, k, what, had, c02PreBalPost(w, cs, k)),
+					tkReplay(sr, hist))
+				return
+			}
 		}
 		tkAdd(exp, tkBK(S, cs.Caller, k), new(big.Int).Sub(amt(1), had))
 	case "ESDTLocalBurn", "ESDTBurn":
@@ -336,6 +356,32 @@ func c02Alias(c *ctx, u *universe, b *tkBudget) {
 	}
 }
 
+// F4c: ESDTNFTCreate writes token ‖ (counter+1) without looking: the creator holds the fungible token "TOK-a1b2c3\x0a"
+// (7 units, optionally frozen) and its counter for "TOK-a1b2c3" is 9
+func c02CreateOverwrite(c *ctx, u *universe, b *tkBudget) {
+	w := u.stdWorld(2, 0, distinctGas(21, 3))
+	u.populate(w)
+	base := c.tkNewRun(u, w, "f4c", []monitor{monC02, monNonNeg}, b, false)
+	A, T := u.U[1], []byte("TOK-a1b2c3")
+	other := append(append([]byte(nil), T...), 0x0a)
+	base.quiet = true
+	base.must(base.sys(A, "ESDTTransfer", other, be(7)), "issue the fungible token TOK-a1b2c3 + 0x0a")
+	base.giveRoles(A, T)
+	for i := 1; i <= 8; i++ {
+		base.must(base.create(A, T, 1, fmt.Sprintf("h%d", i)), "create")
+	}
+	base.quiet = false
+	base.must(base.create(A, T, 1, "h9"), "create nonce 9 (control: fresh cell)")
+	for _, variant := range []string{"plain", "frozen"} {
+		r := base.fork("f4c/" + variant)
+		if variant == "frozen" {
+			r.must(r.sys(A, "ESDTFreeze", other), "freeze the fungible holding")
+		}
+		sr := r.create(A, T, 2, "h10")
+		c.count("c02/f4c/" + variant + "/" + statusName(sr.Res.Status))
+	}
+}
+
 func c02Tune(g *gen) {
 	g.wSupply, g.wTransfer, g.wSystem, g.wDeliver, g.wHostile, g.wAccount = 50, 14, 14, 8, 9, 5
 }
@@ -344,7 +390,7 @@ func init() {
 	runners["C02"] = func(c *ctx) {
 		u := newUniverse()
 		proj := tkProj(false, true)
-		c.rep.Rule = "(1) amount sweep on clones of fresh 2-shard worlds: caller's prior holding in {absent, 1, 1000, 2^64+5, 90-byte value} (fungible token and SFT nonce 1) x amount in {0, 1, bal-1, bal, bal+1, 2^64-1, 2^64, 100-byte, 101-byte} x {ESDTLocalMint, ESDTLocalBurn, ESDTBurn, ESDTNFTCreate, ESDTNFTAddQuantity, ESDTNFTBurn, ESDTTransfer, ESDTNFTTransfer, MultiESDTNFTTransfer (fungible / SFT / repeated token; same and cross shard), UpdateAttributes, AddURI, SaveKeyValue, SetUserName}; per prior holding: ESDTWipe (frozen / not frozen / SFT key), Freeze, UnFreeze, Pause, UnPause, SetRole, UnSetRole, CreateRoleTransfer, ChangeOwnerAddress, ClaimDeveloperRewards; F8 world (system-account address holds a token, then ESDTPause / ESDTUnPause on that shard and on the other shard); F4b world (AddQuantity / NFTBurn / AddURI / UpdateAttributes through the aliased key, the honest identifier, the repaired F4a shape). " +
+		c.rep.Rule = "(1) amount sweep on clones of fresh 2-shard worlds: caller's prior holding in {absent, 1, 1000, 2^64+5, 90-byte value} (fungible token and SFT nonce 1) x amount in {0, 1, bal-1, bal, bal+1, 2^64-1, 2^64, 100-byte, 101-byte} x {ESDTLocalMint, ESDTLocalBurn, ESDTBurn, ESDTNFTCreate, ESDTNFTAddQuantity, ESDTNFTBurn, ESDTTransfer, ESDTNFTTransfer, MultiESDTNFTTransfer (fungible / SFT / repeated token; same and cross shard), UpdateAttributes, AddURI, SaveKeyValue, SetUserName}; per prior holding: ESDTWipe (frozen / not frozen / SFT key), Freeze, UnFreeze, Pause, UnPause, SetRole, UnSetRole, CreateRoleTransfer, ChangeOwnerAddress, ClaimDeveloperRewards; F8 world (system-account address holds a token, then ESDTPause / ESDTUnPause on that shard and on the other shard); F4c world (creator holds 7 units of the fungible token TOK-a1b2c3 followed by byte 0x0a, plain and frozen, counter of TOK-a1b2c3 at 9, then ESDTNFTCreate); F4b world (AddQuantity / NFTBurn / AddURI / UpdateAttributes through the aliased key, the honest identifier, the repaired F4a shape). " +
 			"(2) random walks weighted to the supply functions. After EVERY executed call the monitor compares the change of every decoded balance of every account on every shard with the exact stated effect of the function (mint/add-quantity +v at the caller's key, create = quantity under counter+1, burns -v, wipe = minus the frozen holding, all other functions and all failed calls: nothing), checks amount <= holding for every debit incl. accumulated multi-transfer items, and scans the executing shard for negative or stored-zero balances. " +
 			"Every executed call is re-executed by the Coq model (projection: status + complete post-state of the shard). distinct = distinct (world state, operation)."
 		c.tkBegin(proj)
@@ -355,6 +401,7 @@ func init() {
 		}
 		c02PauseOverHolding(c, u, &tkBudget{max: 20})
 		c02Alias(c, u, &tkBudget{max: 20})
+		c02CreateOverwrite(c, u, &tkBudget{max: 10})
 		c02Sweep(c, u, budget)
 		n, ops, prob, max := 8, 250, 2, 1000
 		if !quick {
